@@ -8,6 +8,7 @@ import GocoinV.Proofs.C07JHist
 import GocoinV.Proofs.C07Pos
 import GocoinV.Proofs.C07KMain
 import GocoinV.Proofs.C07Roll
+import GocoinV.Proofs.C07Torn
 namespace GocoinV.Props.C07
 open GocoinV.Persist GocoinV.Proofs.C07
 
@@ -187,6 +188,13 @@ example : ParentsFirst (submitted wlReorgNoSave) ∧ UniqueBest (submitted wlReo
   · unfold UniqueBest; decide +kernel
   · unfold InT; decide +kernel
 
+-- OPEN: run_foreign_false_restart_free — `(run bigs ops).foreign = false` for every restart-free history of well-formed blocks (a
+-- running node only undoes blocks whose undo/<height> file it wrote itself, so the hypothesis `hrun` below should be derivable:
+-- invariant "undo/<h> of every block of the active chain names that block", preserved by CommitBlockTxs (writes undo/<height+1>
+-- of the new tip) and UndoBlockTxs (pops the tip)).  NOT proved: `hrun` stays a hypothesis; it is a DECIDABLE property of the input
+-- history (run the model, read the flag — the examples do exactly that) and the harness checks it on every model-compared
+-- workload (`final`/`crash` replies carry the flag).
+
 /-- the same for histories without an in-history restart, where only properties of the INPUT remain as hypotheses -/
 theorem crash_consistent_restart_free (bigs : List Coin) (ops : List Op) (k : Nat) (hwf : WF (submitted ops))
     (hpf : ParentsFirst (submitted ops)) (huniq : UniqueBest (submitted ops)) (hnr : ∀ op ∈ ops, op ≠ Op.reopen)
@@ -211,6 +219,40 @@ theorem crash_reopen_partial (bigs : List Coin) (ops : List Op) (k : Nat) :
       (∀ r ∈ s1.d.idx, (∃ b ∈ s1.d.dat, b.id = r.id) ∧ r.invalid = false ∧ (r.parent = 0 ∨ ∃ r' ∈ s1.d.idx, r'.id = r.parent)) ∧
       (∀ b ∈ s1.d.dat, b.parent = 0 ∨ ∃ r ∈ s1.d.idx, r.id = b.parent) :=
   crash_reopen' bigs ops k
+
+/-- a snapshot file that cannot be read to its end (UTXO.db and/or UTXO.old cut short: power loss, full disk — NOT a process kill,
+    so outside the property's quantifier, but it is what the fall-back "UTXO.db, else UTXO.old, else empty" of NewUnspentDb exists
+    for; since fix eab07278 the real code behaves like `tearDb` also when the 48-byte header of the cut file is intact — before, it
+    hung): at EVERY crash prefix of EVERY history NewChainExt still opens the directory without a panic, at genesis with the empty
+    set or at EXACTLY a (tip, unspent set, height) the running node held at an operation boundary, that tip being in the loaded
+    tree; with both files unreadable it starts from genesis.  (What the recovery loop then does is `restartFrom`, the function the
+    oracle runs for the harness's truncated-UTXO.db cases; `crashAt` is `restartFrom` the crash directory by definition.) -/
+theorem torn_snapshot_reopens (bigs : List Coin) (ops : List Op) (k : Nat) (db old : Bool) :
+    ∃ s1, openNode (tearDb (applyAll {} ((run bigs ops).es.take k)) db old) bigs 0 = .ok s1 ∧ s1.err = none ∧
+      ((s1.n.tip = 0 ∧ s1.n.utxo = [] ∧ s1.n.lastHeight = 0) ∨
+        ∃ j, j ≤ ops.length ∧ (run bigs (ops.take j)).n.tip = s1.n.tip ∧ (run bigs (ops.take j)).n.utxo = s1.n.utxo ∧
+          (run bigs (ops.take j)).n.lastHeight = s1.n.lastHeight) ∧
+      inTree s1.n s1.n.tip = true ∧
+      ((db = true ∧ old = true) → s1.n.tip = 0 ∧ s1.n.utxo = []) :=
+  torn_reopen' bigs ops k db old
+
+/-- `crashAt` (the function of the central theorem) is `restartFrom` (the function behind the oracle's `torn` op) on the directory
+    left by the first k effects -/
+theorem crashAt_eq_restartFrom (bigs : List Coin) (ops : List Op) (k : Nat) :
+    crashAt bigs ops k = restartFrom (applyAll {} ((run bigs ops).es.take k)) bigs ops := rfl
+
+/-- the torn-snapshot restart on a concrete history: the witness history closed cleanly (k beyond the end), UTXO.db unreadable —
+    the node falls back to UTXO.old (snapshot of A, on the abandoned branch) and is then INSIDE the window of the known finding
+    (ghost flag raised, final set wrong); with both files unreadable it starts over from genesis and converges. -/
+theorem torn_snapshot_examples :
+    restartForeign (tearDb (run [] witnessOps).d true false) [] witnessOps = true ∧
+    (match restartFrom (tearDb (run [] witnessOps).d true true) [] witnessOps with
+      | .ok (s1, _, s3) => s1.n.tip == 0 && s3.n.tip == (run [] witnessOps).n.tip && sameSet s3.n.utxo (run [] witnessOps).n.utxo && !s3.foreign
+      | .error _ => false) = true ∧
+    (match restartFrom (tearDb (run [] wlSave).d true false) [2, 3] wlSave with
+      | .ok (s1, _, s3) => s1.n.tip != (run [2, 3] wlSave).n.tip && s3.n.tip == (run [2, 3] wlSave).n.tip && sameSet s3.n.utxo (run [2, 3] wlSave).n.utxo && !s3.foreign
+      | .error _ => false) = true := by
+  decide +kernel
 
 /-- the invariant itself, at every crash point of every history: the directory is good (see above) -/
 theorem every_crash_prefix_good (bigs : List Coin) (ops : List Op) (k : Nat) :
